@@ -45,7 +45,7 @@ json.dump(man, open(os.path.join(ROOT, "MANIFEST.json"), "w"), indent=1)
 import jsonschema
 jsonschema.validate(man, json.load(open("/root/.vp/MANIFEST.schema.json")))
 for c in man["checks"]:
-    if c["property_id"] in ("C03", "C04", "C06", "C20"):
+    if c["property_id"] in ("C03", "C04", "C20"):
         c["replay_cmd_template"] = f"{PY} -m dst.replay_diff {{path}}"
 json.dump(man, open(os.path.join(ROOT, "MANIFEST.json"), "w"), indent=1)
 print("MANIFEST ok:", len(checks), "checks,", len(na), "not claimed")
